@@ -5,6 +5,7 @@ Symplyphysics latex printer
 import re
 from typing import Any
 from sympy import E, S, Expr, Mod, Mul
+from sympy.printing.precedence import PRECEDENCE
 from sympy.matrices.dense import DenseMatrix
 from sympy.printing.latex import LatexPrinter, accepted_latex_functions
 from sympy.core.function import AppliedUndef
@@ -157,13 +158,13 @@ class SymbolLatexPrinter(LatexPrinter):  # type: ignore[misc]
         # expr.args[0] contains the argument of the Product
         # expr.args[1] contains just indexed symbol
         arg, index = expr.args
-        return f"\\sum_{self._print(index)} {self._print(arg)}"
+        return f"\\sum_{self._print(index)} {self.parenthesize(arg, PRECEDENCE['Mul'])}"
 
     # pylint: disable-next=invalid-name
     def _print_IndexedProduct(self, expr: Any) -> str:
         # only one index of sum is supported
         arg, index = expr.args
-        return f"\\prod_{self._print(index)} {self._print(arg)}"
+        return f"\\prod_{self._print(index)} {self.parenthesize(arg, PRECEDENCE['Mul'])}"
 
     def _print_log(self, expr: Any, exp: Any = None) -> str:
         value, base = (expr.args[0], expr.args[1]) if len(expr.args) > 1 else (expr.args[0], E)
